@@ -141,6 +141,36 @@ def par(s):
     return s if atomic(s) else f"({s})"
 
 
+KEYWORDS = {"if", "then", "else", "match", "with", "end", "fun", "let", "in", "mod"}
+
+
+def is_app(s):
+    """a plain application f a b ... (binds tighter than every infix operator)"""
+    chunks, depth, cur, instr = [], 0, "", False
+    for c in s.strip():
+        if c == '"':
+            instr = not instr
+        if not instr:
+            if c in "([":
+                depth += 1
+            elif c in ")]":
+                depth -= 1
+        if c.isspace() and depth == 0 and not instr:
+            if cur:
+                chunks.append(cur)
+            cur = ""
+        else:
+            cur += c
+    if cur:
+        chunks.append(cur)
+    return all(atomic(c) and c not in KEYWORDS and (c[0].isalnum() or c[0] in '_(["') for c in chunks)
+
+
+def opd(s):
+    """operand of an infix operator"""
+    return s if atomic(s) or is_app(s) else f"({s})"
+
+
 def app(f, *args):
     return " ".join([f] + [par(a) for a in args])
 
@@ -275,7 +305,15 @@ def tree_pure(t):
 
 
 def purify(t):
-    """binds of pure sub-trees (joins of pure branches) become lets"""
+    """binds of pure sub-trees (joins of pure branches) become lets; `let x := e in x` is e, `x <- c ;; ret x` is c"""
+    t = purify0(t)
+    if t[0] in ("let", "bind") and not isinstance(t[2], tuple) and t[3][0] == "ret" \
+            and (t[3][1] == t[1] or (t[1].startswith("'") and t[3][1] == t[1][1:])):
+        return ("ret", t[2]) if t[0] == "let" else ("tail", t[2])
+    return t
+
+
+def purify0(t):
     k = t[0]
     if k in ("ret", "tailrec", "raise", "tail"):
         return t
@@ -359,6 +397,7 @@ class Fn:
         self.alias = {}        # delta key -> python local holding the referenced list
         self.ret_ty = None
         self.loop_depth = 0
+        self.branch_depth = 0
         self.locals = set()
 
     def temp(self):
@@ -515,7 +554,8 @@ class Translator:
         return V(v.pre + [("bind", t, v.term)], t, v.ty, False, v.fresh)
 
     def pure(self, fn, e, env, want=None):
-        return self.force(fn, self.expr(fn, e, env, want))
+        v = self.force(fn, self.expr0(fn, e, env, want))
+        return self.coerce(v, want, e) if want is not None else v
 
     def coerce(self, v, want, node):
         """value of type v.ty where `want` is expected (only None / T -> Optional[T])"""
@@ -530,6 +570,7 @@ class Translator:
         return V(v.pre, v.term, unify(v.ty, want, node), False, v.fresh)
 
     def expr(self, fn, e, env, want=None):
+        """a value that may still be an unbound computation (never coerced when it is)"""
         v = self.expr0(fn, e, env, want)
         if want is not None and not v.comp:
             v = self.coerce(v, want, e)
@@ -597,7 +638,9 @@ class Translator:
             if isinstance(e.op, ast.Not):
                 return V(a.pre, app("negb", self.truth(a, e.operand)), BOOL)
             if isinstance(e.op, ast.USub) and a.ty == INT:
-                return V(a.pre, f"- {par(a.term)}", INT)
+                if isinstance(e.operand, ast.Constant):
+                    return V(a.pre, zlit(-e.operand.value), INT)
+                return V(a.pre, f"- {opd(a.term)}", INT)
             fail(e, "unary operator")
         if isinstance(e, ast.BoolOp):
             return self.boolop(fn, e, env)
@@ -688,15 +731,15 @@ class Translator:
         pre = a.pre + b.pre
         islist = lambda t: isinstance(t, tuple) and t[0] == "list"  # noqa
         if isinstance(e.op, ast.Add) and islist(a.ty) and islist(b.ty):
-            return V(pre, f"{par(a.term)} ++ {par(b.term)}", unify(a.ty, b.ty, e), False, True)
+            return V(pre, f"{opd(a.term)} ++ {opd(b.term)}", unify(a.ty, b.ty, e), False, True)
         if a.ty == INT and b.ty == INT:
             if isinstance(e.op, (ast.Add, ast.Sub, ast.Mult)):
                 op = {ast.Add: "+", ast.Sub: "-", ast.Mult: "*"}[type(e.op)]
-                return V(pre, f"{par(a.term)} {op} {par(b.term)}", INT)
+                return V(pre, f"{opd(a.term)} {op} {opd(b.term)}", INT)
             if isinstance(e.op, ast.Mod) and isinstance(e.right, ast.Constant) and type(e.right.value) is int \
                     and e.right.value != 0:
                 # Python's % has the sign of the divisor, like Z.modulo; the divisor is a non-zero literal
-                return V(pre, f"{par(a.term)} mod {par(b.term)}", INT)
+                return V(pre, f"{opd(a.term)} mod {opd(b.term)}", INT)
         fail(e, "binary operator")
 
     def boolop(self, fn, e, env):
@@ -716,7 +759,7 @@ class Translator:
                 tree = ("if", t, inner, ("ret", "false")) if isand else ("if", t, ("ret", "true"), inner)
                 acc_pre, acc = v.pre + [("bind", tmp, tree)], tmp
             else:
-                acc_pre, acc = v.pre, f"{par(t)} {'&&' if isand else '||'} {par(acc)}"
+                acc_pre, acc = v.pre, f"{opd(t)} {'&&' if isand else '||'} {opd(acc)}"
         return V(acc_pre, acc, BOOL)
 
     def compare(self, fn, e, env):
@@ -729,7 +772,7 @@ class Translator:
             pre += v.pre
         for (a, op, b, node) in zip(vals, e.ops, vals[1:], operands[1:]):
             terms.append(self.compare1(a, op, b, e))
-        return V(pre, " && ".join(par(t) for t in terms) if len(terms) > 1 else terms[0], BOOL)
+        return V(pre, " && ".join(opd(t) for t in terms) if len(terms) > 1 else terms[0], BOOL)
 
     def compare1(self, a, op, b, node):
         if isinstance(op, (ast.Is, ast.IsNot)):
@@ -740,9 +783,9 @@ class Translator:
         if a.ty == INT and b.ty == INT:
             sym = {ast.Lt: "<?", ast.LtE: "<=?", ast.Gt: ">?", ast.GtE: ">=?", ast.Eq: "=?"}.get(type(op))
             if sym:
-                return f"{par(a.term)} {sym} {par(b.term)}"
+                return f"{opd(a.term)} {sym} {opd(b.term)}"
             if isinstance(op, ast.NotEq):
-                return app("negb", f"{par(a.term)} =? {par(b.term)}")
+                return app("negb", f"{opd(a.term)} =? {opd(b.term)}")
         if a.ty == b.ty and a.ty in (COLOR, KIND, MTYPE, REASON) and isinstance(op, (ast.Eq, ast.NotEq)):
             t = app(EQB[a.ty], a.term, b.term)
             return t if isinstance(op, ast.Eq) else app("negb", t)
@@ -1091,9 +1134,10 @@ class Translator:
         if value is None:
             fail(node, "bare return")
         v = self.expr(fn, value, env, fn.ret_ty)
-        if v.comp:
-            unify(v.ty, fn.ret_ty, node)
+        if v.comp and v.ty == fn.ret_ty:
             return wrap(v.pre, ("tail", v.term))
+        if v.comp:
+            v = self.coerce(self.force(fn, v), fn.ret_ty, node)
         unify(v.ty, fn.ret_ty, node)
         return wrap(v.pre, ("ret", v.term))
 
@@ -1118,14 +1162,13 @@ class Translator:
             self.check_not_aliased(fn, target.id, node)
             if isinstance(value, ast.Dict) and target.id == "delta":
                 return self.delta_literal(fn, target, value, env, cont)
-            want = env.get(target.id)[1] if env.has(target.id) and known(env.get(target.id)[1]) else None
             v = self.expr(fn, value, env)
             c = self.cname(target.id)
             ty = v.ty
             if ty == NONE:
                 fail(node, "a variable holding None")
-            if want is not None and not (isinstance(want, tuple) and want[0] == "opt"):
-                ty = unify(want, ty, node)
+            if env.has(target.id):      # a variable keeps its type
+                ty = unify(env.get(target.id)[1], ty, node)
             env2 = env.set(target.id, c, ty, v.fresh)
             return wrap(v.pre, ("bind" if v.comp else "let", c, v.term, cont(env2)))
         if isinstance(target, ast.Tuple):
@@ -1227,65 +1270,57 @@ class Translator:
         c = self.pure(fn, s.test, env)
         cond = self.truth(c, s.test)
         a_ft, b_ft = self.falls_through(s.body), self.falls_through(s.orelse)
-        fn.branch_depth += 1
+        depth = fn.branch_depth
+
+        def outside(e):      # the rest of the enclosing block is not "inside the branch"
+            saved, fn.branch_depth = fn.branch_depth, depth
+            try:
+                return cont(e)
+            finally:
+                fn.branch_depth = saved
+        fn.branch_depth = depth + 1
         try:
-            if a_ft and b_ft:
-                both = self.definitely(s.body) & self.definitely(s.orelse)
-                names = [n for n in self.assigned(s.body + s.orelse) if env.has(n) or n in both]
-                ends = []
-
-                def k(e):
-                    ends.append(e)
-                    return ("ret", None)     # filled below
-                fn.branch_depth -= 1
-                fn.branch_depth += 1
-                ta = self.block(fn, s.body, env, k, ctx)
-                tb = self.block(fn, s.orelse, env, k, ctx)
-                # types of the joined variables
-                env2 = env
-                for n in names:
-                    ty = None
-                    fresh = True
-                    for e in ends:
-                        ty = unify(ty, e.get(n)[1], s)
-                        fresh = fresh and e.get(n)[2]
-                    env2 = env2.set(n, self.cname(n), ty, fresh)
-                if not names:
-                    fail(s, "an if statement without effect")
-                it = iter(ends)
-
-                def fill(t):
-                    if t[0] == "ret" and t[1] is None:
-                        e = next(it)
-                        return ("ret", tuple_term([e.get(n)[0] for n in names]))
-                    if t[0] in ("let", "bind"):
-                        return (t[0], t[1], t[2], fill(t[3]))
-                    if t[0] == "if":
-                        return ("if", t[1], fill(t[2]), fill(t[3]))
-                    return t
-                ta = fill(ta)
-                tb = fill(tb)
-                fn.branch_depth -= 1
-                rest = cont(env2)
-                fn.branch_depth += 1
-                return wrap(c.pre, ("bind", pattern([self.cname(n) for n in names]), ("if", cond, ta, tb), rest))
-            if a_ft:
-                fn.branch_depth -= 1
-                ta = self.block(fn, s.body, env, cont, ctx)
-                fn.branch_depth += 1
-                tb = self.block(fn, s.orelse, env, self.unreachable, ctx)
+            if not (a_ft and b_ft):
+                ta = self.block(fn, s.body, env, outside if a_ft else self.unreachable, ctx)
+                tb = self.block(fn, s.orelse, env, outside if b_ft else self.unreachable, ctx)
                 return wrap(c.pre, ("if", cond, ta, tb))
-            if b_ft:
-                ta = self.block(fn, s.body, env, self.unreachable, ctx)
-                fn.branch_depth -= 1
-                tb = self.block(fn, s.orelse, env, cont, ctx)
-                fn.branch_depth += 1
-                return wrap(c.pre, ("if", cond, ta, tb))
-            ta = self.block(fn, s.body, env, self.unreachable, ctx)
-            tb = self.block(fn, s.orelse, env, self.unreachable, ctx)
-            return wrap(c.pre, ("if", cond, ta, tb))
+            # both branches reach the rest: the variables they assign are returned as a tuple and rebound
+            for x in s.body + s.orelse:
+                for n in ast.walk(x):
+                    if isinstance(n, (ast.Continue, ast.Return)):
+                        fail(n, "continue / return inside a branch that can also fall through")
+            both = self.definitely(s.body) & self.definitely(s.orelse)
+            names = [n for n in self.assigned(s.body + s.orelse) if env.has(n) or n in both]
+            if not names:
+                fail(s, "an if statement without effect")
+            ends = []
+
+            def k(e):
+                ends.append(e)
+                return ("ret", ("JOIN", e))
+            ta = self.block(fn, s.body, env, k, ctx)
+            tb = self.block(fn, s.orelse, env, k, ctx)
+            env2 = env
+            for n in names:
+                ty, fresh = None, True
+                for e in ends:
+                    ty = unify(ty, e.get(n)[1], s)
+                    fresh = fresh and e.get(n)[2]
+                env2 = env2.set(n, self.cname(n), ty, fresh)
+
+            def fill(t):
+                if t[0] == "ret" and isinstance(t[1], tuple) and t[1][0] == "JOIN":
+                    return ("ret", tuple_term([t[1][1].get(n)[0] for n in names]))
+                if t[0] in ("let", "bind"):
+                    return (t[0], t[1], t[2], fill(t[3]))
+                if t[0] == "if":
+                    return ("if", t[1], fill(t[2]), fill(t[3]))
+                return t
+            fn.branch_depth = depth
+            return wrap(c.pre, ("bind", pattern([self.cname(n) for n in names]), ("if", cond, fill(ta), fill(tb)),
+                                cont(env2)))
         finally:
-            fn.branch_depth -= 1
+            fn.branch_depth = depth
 
     @staticmethod
     def unreachable(env):
@@ -1348,13 +1383,14 @@ class Translator:
             return t
         body = purify(fill(body))
         is_pure = tree_pure(body)
-        st_ty = " * ".join(coq_type(env_after.get(n)[1], False) for n in state) if state else "unit"
+        st_ty = coq_type(T(*[env_after.get(n)[1] for n in state]) if len(state) > 1 else env_after.get(state[0])[1], False) \
+            if state else "unit"
         params = "".join(f" ({env.get(n)[0]} : {coq_type(env_after.get(n)[1] if n in state else env.get(n)[1])})"
                          for n in free + state)
         st_term = tuple_term([env.get(n)[0] for n in state]) if state else "tt"
         if not state:
             fail(s, "a loop without effect")
-        res_ty = st_ty if is_pure else f"res ({st_ty})"
+        res_ty = st_ty if is_pure else f"res {st_ty}"
         text = (f"Fixpoint {lname}{params} (it : {coq_type(it.ty)}) {{struct it}} : {res_ty} :=\n"
                 f"  match it with\n"
                 f"  | [] => {st_term if is_pure else app('ret', st_term)}\n"
@@ -1375,7 +1411,6 @@ class Translator:
         if len(names) != len(ptys):
             fail(fd, f"{qual}: expected {len(ptys)} parameters")
         fn = Fn(self, module, qual, coq)
-        fn.branch_depth = 0
         fn.ret_ty = ret
         fn.locals = {n.id for n in ast.walk(fd) if isinstance(n, ast.Name)} | set(names)
         env = Env()
@@ -1398,7 +1433,7 @@ class Translator:
 
     def emit(self, fn, module, qual, coq, params, ptys, ret, extra, tree):
         is_pure = tree_pure(tree)
-        rty = coq_type(ret) if is_pure else f"res ({coq_type(ret)})"
+        rty = coq_type(ret) if is_pure else f"res {coq_type(ret, False)}"
         head = f"Definition {coq} {' '.join(params)} : {rty} :=" if params else f"Definition {coq} : {rty} :="
         text = f"(* {module}.py: {qual} *)\n" + "".join(a + "\n" for a in fn.aux) + head + "\n" + show(tree, 2, not is_pure) + "."
         self.out.append(text)
@@ -1443,7 +1478,6 @@ class Translator:
                         _src(x.func.value).endswith("ALL_SLIDES"):
                     fail(x, "a method of ALL_SLIDES is called")
         fn = Fn(self, module, qual, coq)
-        fn.branch_depth = 0
         fn.ret_ty = ret
         fn.locals = {n.id for s in stmts for n in ast.walk(s) if isinstance(n, ast.Name)}
         ret_stmt = ast.parse("return ALL_SLIDES").body[0]
